@@ -38,6 +38,15 @@ TEXT = {
                 "assumed: broadcast delivery to every connection task (channel capacity), see DESIGN.md.",
         "technique": "Lean 4 proof (invariant by induction over operation histories + loop lemmas) + differential correspondence on command histories",
     },
+    "C08": {
+        "level": "Kernel-checked for every script of frames (any handshake, arriving at any point of any history), broadcasts, ticks and stream ends, on "
+                 "incoming and outgoing connections: the task's trace satisfies the monitor P08 (C08_trace) — own handshake carries the torrent's info-hash and "
+                 "own id and is the first thing written; a handshake with another info-hash or peer id is answered with nothing, ends the task and nothing is "
+                 "written afterwards; an incoming connection gets no write in reaction to any frame before a handshake validated; piece data is written only "
+                 "after a valid handshake. P08 is also evaluated on the implementation's trace.",
+        "note": KERNEL + "the manager forgetting the peer after KillReq is the kill step of the manager model (C12); a wrong protocol string is a decode error (C06).",
+        "technique": "Lean 4 proof (trace monitor proved sound for all scripts; case analysis of handle_handshake) + differential correspondence",
+    },
     "C20": {
         "level": "Kernel-checked for every script of frames, broadcasts and timer ticks: the observable trace of the connection-task model satisfies the "
                  "keep-alive predicate P20 (C20_trace): each tick writes exactly one KeepAlive unless KEEP_ALIVE_LIMIT ticks have passed since the last "
